@@ -358,4 +358,65 @@ theorem constructMonoNovelBuggy_mirror_witness : ¬ MonoNovelMirror constructMon
   revert this
   decide +kernel
 
+/-! ### which reads enter the clusters: follow-up of 7594462 (reads carrying both tails) -/
+
+/-- mirrored read: polyA evidence becomes polyT evidence (no tail position mirrored onto the sentinel) -/
+theorem mirror_dual_strandVote (L : Int) (r : MRead)
+    (hA : r.polyA ≠ -1 → L + 1 - r.polyA ≠ -1) (hT : r.polyT ≠ -1 → L + 1 - r.polyT ≠ -1) :
+    strandVote (mirrorMRead L r) = (strandVote r).map (!·) := by
+  simp only [strandVote, mirrorMRead, mirrorPos]
+  by_cases h1 : r.polyA = -1
+  · by_cases h2 : r.polyT = -1
+    · simp [h1, h2]
+    · have := hT h2; simp [h1, h2]; omega
+  · by_cases h2 : r.polyT = -1
+    · have := hA h1; simp [h1, h2]; omega
+    · have ha := hA h1; have ht := hT h2; simp [h1, h2, ha, ht]
+
+/-- a read is in a cluster of at most one strand -/
+theorem voters_exclusive (rs : List MRead) (r : MRead) : ¬ (r ∈ votersOf true rs ∧ r ∈ votersOf false rs) := by
+  simp only [votersOf, List.mem_filter, beq_iff_eq]
+  rintro ⟨⟨_, h1⟩, ⟨_, h2⟩⟩
+  rw [h1] at h2; cases h2
+
+/-- the voters of the mirrored run for one strand are the mirrored voters of the other strand, in the same order -/
+theorem mirror_dual_votersOf (L : Int) (fw : Bool) (rs : List MRead)
+    (hA : ∀ r ∈ rs, r.polyA ≠ -1 → L + 1 - r.polyA ≠ -1) (hT : ∀ r ∈ rs, r.polyT ≠ -1 → L + 1 - r.polyT ≠ -1) :
+    votersOf fw (rs.map (mirrorMRead L)) = (votersOf (!fw) rs).map (mirrorMRead L) := by
+  induction rs with
+  | nil => rfl
+  | cons r rs ih =>
+    have ih' := ih (fun x hx => hA x (List.mem_cons_of_mem _ hx)) (fun x hx => hT x (List.mem_cons_of_mem _ hx))
+    have hv := mirror_dual_strandVote L r (hA r List.mem_cons_self) (hT r List.mem_cons_self)
+    simp only [votersOf, List.map_cons, List.filter_cons] at ih' ⊢
+    rw [hv, ih']
+    cases strandVote r with
+    | none => simp
+    | some b => cases b <;> cases fw <;> simp
+
+/-- the audit's follow-up input: six reads 5000..5600 carrying BOTH tails (ids 0..5) -/
+def bothTails : List MRead :=
+  (List.range 6).map (fun k => { id := k, iv := (5000 + (k : Int), 5600), polyA := 5600, polyT := 4998 })
+
+/-- 7594462 (clusters by support, equal support does not compete) fed with the clusters of `strandVotesShared`: the SAME six
+    reads form a polyA and a polyT cluster and TWO models are reported from them -/
+theorem sharedReads_two_models_witness :
+    votersOfShared true bothTails = bothTails ∧ votersOfShared false bothTails = bothTails ∧
+    constructMonoNovel 2 [] [clusterAt true 5600 (votersOfShared true bothTails)]
+        [clusterAt false 4998 (votersOfShared false bothTails)]
+      = some [{ forward := true, exons := [(5000, 5600)] }, { forward := false, exons := [(4998, 5600)] }] := by
+  decide +kernel
+
+/-- after the follow-up the same reads are in no cluster and no model is built from them (in either orientation: the
+    mirrored reads carry both tails again) -/
+theorem bothTails_no_cluster :
+    votersOf true bothTails = [] ∧ votersOf false bothTails = [] ∧
+    votersOf true (bothTails.map (mirrorMRead 20000)) = [] ∧ votersOf false (bothTails.map (mirrorMRead 20000)) = [] := by
+  decide +kernel
+
+-- non-vacuity of the exclusive vote: reads with one tail still vote
+example : strandVote { id := 0, iv := (5000, 5600), polyA := 5600, polyT := -1 } = some true ∧
+    strandVote { id := 1, iv := (5100, 5750), polyA := -1, polyT := 5098 } = some false ∧
+    strandVote (mirrorMRead 20000 { id := 0, iv := (5000, 5600), polyA := 5600, polyT := -1 }) = some false := by decide
+
 end IsoVerif.Props.C11MonoNovel
